@@ -755,7 +755,39 @@ def lmp_answers(ctx):
     R.check(n_resp >= 3 and len(awaited) >= 2, rule, f'{CTRL} | coverage', f'{n_resp} responders, {len(awaited)} awaited request kinds', f'only {n_resp} responders / {len(awaited)} awaited requests recognised')
 
 
+
+def host_complete(ctx):
+    """A Command Complete with opcode 0 only carries credits: it must not conclude the pending command."""
+    from .. import sym
+    R, p = ctx.r, ctx.p
+    rule = 'C03.host-complete'
+    fn = p.find('bumble.host.Host.on_hci_command_complete_event')
+    if fn is None:
+        R.bad(rule, 'bumble.host.Host.on_hci_command_complete_event', 'anchor missing')
+        return
+    bad = []
+    seen = []
+
+    class D(sym.Sym):
+        def on_event(self, node, extra, facts, store):
+            if isinstance(node, ast.Call) and (dotted(node.func) in ('self.on_command_processed', 'self.pending_response.set_result')):
+                seen.append(node)
+                if not sym.holds(facts, 'event.command_opcode == 0', False):
+                    bad.append(f'L{node.lineno}: reached without `event.command_opcode == 0` being excluded')
+            return extra
+    paths.run(fn, D(), sym.Sym.init())
+    R.check(bool(seen) and not bad, rule, 'bumble.host.Host.on_hci_command_complete_event | credit-only event', 'the pending command is concluded only on paths where the event names a command (opcode != 0)',
+            'a Command Complete that only carries credits (opcode 0) is handed to the caller waiting for a response: the caller receives a reply for another opcode and the real reply finds nobody waiting', p.loc(fn), bad[:2])
+    # the status event has no credit-only form but both funnel into on_command_processed, which resolves the one pending future
+    cp = p.find('bumble.host.Host.on_command_processed')
+    if cp is not None:
+        sets = [c for c in calls_in(cp) if dotted(c.func) == 'self.pending_response.set_result']
+        g = [[norm(t) for t, pol in paths.flat_guards(c) if pol] for c in sets]
+        R.check(len(sets) == 1 and g == [['self.pending_response']], rule, 'bumble.host.Host.on_command_processed | resolves the pending future', 'exactly one set_result, only when a caller is waiting', 'the pending response future is not resolved exactly once under `if self.pending_response`', p.loc(cp))
+
+
 RULES = [
+    ('C03.host-complete', host_complete),
     ('C03.lmp-answers', lmp_answers),
     ('C03.host-send', host_send),
     ('C03.controller-reply', controller_reply),
@@ -808,4 +840,6 @@ VARIANTS = [
      "        self.pending_le_connection = command\n\n        # Say that the connection is pending\n        self._send_hci_command_status(hci.HCI_COMMAND_STATUS_PENDING, command.op_code)\n        return None\n",
      "        self.pending_le_connection = command\n\n        # Say that the connection is pending\n        self._send_hci_command_status(hci.HCI_COMMAND_STATUS_PENDING, command.op_code)\n        return\n",
      'silent', ''),
+    ('credit-only event completes the pending command', 'bumble/host.py', "                self.command_semaphore.release()\n\n            return\n\n        return self.on_command_processed(event)", "                self.command_semaphore.release()\n\n        return self.on_command_processed(event)", 'fire', 'C03.host-complete'),
+    ('benign: opcode test written the other way round', 'bumble/host.py', "        if event.command_opcode == 0:\n            # This is used just for the Num_HCI_Command_Packets field", "        if 0 == event.command_opcode:\n            # This is used just for the Num_HCI_Command_Packets field", 'silent', ''),
 ]
